@@ -95,7 +95,7 @@ Proof. destruct e; reflexivity. Qed.
 
 Ltac asimp :=
   repeat (rewrite ?a_RBlock, ?a_RAsyncMove, ?a_RTuple, ?a_RArray, ?a_RJuxt, ?a_RMeth, ?a_RGlue, ?a_RCall,
-            ?a_RMatchIdx, ?a_SLet_tuple; cbn [atoms atoms_stmt flat_map map app]).
+            ?a_RMatchIdx, ?a_SLet_tuple; cbn [atoms atoms_stmt flat_map map app]; rewrite ?at_list, ?at_stmts, ?at_arms).
 
 (* ---------------------------------------------------------------------------------------------- *)
 (** * A small Permutation solver for concatenations *)
@@ -168,8 +168,8 @@ Proof.
   - destruct (hoist b e (S i) r) as [ds' rs'] eqn:E. specialize (IH _ _ _ E).
     cbn [enum_from flat_map]. unfold hoisted_atoms at 1. cbn [fst snd]. unfold tag_expr. cbn [fst snd].
     destruct a; cbn [arg_is_block] in H;
-      try (inversion H; subst; cbn [flat_map];
-           eapply Permutation_trans; [|apply Permutation_app_head, IH]; perm).
+      try solve [inversion H; subst; cbn [flat_map];
+                 eapply Permutation_trans; [|apply Permutation_app_head, IH]; perm].
     destruct (is_block o); inversion H; subst; cbn [flat_map atoms_stmt atoms].
     + eapply Permutation_trans; [|apply Permutation_app_head, IH]. perm.
     + eapply Permutation_trans; [|apply Permutation_app_head, IH]. perm.
@@ -217,4 +217,713 @@ Proof.
     try (intros H; inversion H; subst; asimp; perm; fail).
   - (* Inspect *) destruct args as [|f [|g l]]; intros H; inversion H; subst.
     destruct (is_async cfg); asimp; perm.
+Qed.
+
+(* ---- one NoMove member: gen_def_and_step ---- *)
+Definition ops_atoms (c : comb) (ops : list operand) : list uatom :=
+  match c with Dot => map UDot ops | Collect | Unzip => map UType ops | _ => [] end.
+
+Lemma action_atoms_hoistable b e x :
+  a_mv x = NoMove -> is_replaceable (a_comb x) && has_inner_exprs (a_comb x) = true ->
+  has_inner_exprs (a_comb x) = true /\
+  action_atoms b e x = map (tag_expr b e) (enum_from 0 (a_ops x)) /\
+  forall prev rs ops, expand_expected (a_comb x) prev rs ops =
+                      (if comb_eqb (a_comb x) Initial then [] else atoms prev) ++ A_es rs.
+Proof.
+  intros Hm Hf. unfold action_atoms. rewrite Hm.
+  destruct (a_comb x); cbn in *; try discriminate; repeat split; reflexivity.
+Qed.
+
+Lemma action_atoms_plain b e x :
+  a_mv x = NoMove -> act_okb x = true ->
+  is_replaceable (a_comb x) && has_inner_exprs (a_comb x) = false ->
+  comb_eqb (a_comb x) Initial = false /\
+  action_atoms b e x = ops_atoms (a_comb x) (a_ops x) /\
+  forall prev args, expand_expected (a_comb x) prev args (a_ops x) = atoms prev ++ ops_atoms (a_comb x) (a_ops x).
+Proof.
+  intros Hm Hok Hf. unfold action_atoms, act_okb, mv_okb in *. rewrite Hm in *.
+  apply andb_true_iff in Hok as [_ Hok].
+  destruct (a_comb x); cbn in *; try discriminate; repeat split; intros; rewrite ?app_nil_r; reflexivity.
+Qed.
+
+Lemma gen_def_and_step_atoms cfg defs prev x b e ds' s :
+  act_okb x = true -> a_mv x = NoMove ->
+  gen_def_and_step cfg defs prev (mk_pos x b e) = Ok (ds', s) ->
+  exists ds, ds' = defs ++ ds /\
+    Permutation (A_ss ds ++ atoms s)
+                ((if comb_eqb (a_comb x) Initial then [] else atoms prev) ++ action_atoms b e x).
+Proof.
+  intros Hok Hm H. pose proof (act_ok_pos_ok x b e Hok Hm) as Hp.
+  unfold gen_def_and_step in H. rewrite (separate_block_expr_spec _ Hp) in H.
+  unfold mk_pos in H; cbn [p_comb p_args p_ops p_branch p_expr] in H.
+  destruct (is_replaceable (a_comb x) && has_inner_exprs (a_comb x)) eqn:Ef.
+  - destruct (action_atoms_hoistable b e x Hm Ef) as (Hin & Hact & Hexp). rewrite Hin in H.
+    destruct (hoist b e 0 (map RUser (a_ops x))) as [ds rs] eqn:Eh.
+    inv_bind H. inversion H; subst. exists ds. split; [reflexivity|].
+    pose proof (hoist_atoms _ _ _ _ _ _ Eh) as Hh. rewrite hoisted_user in Hh.
+    pose proof (expand_atoms _ _ _ _ _ _ E) as He. rewrite Hexp in He. rewrite Hact.
+    eapply Permutation_trans; [apply Permutation_app_head, He|].
+    eapply Permutation_trans; [|apply Permutation_app_head, Hh]. perm.
+  - destruct (action_atoms_plain b e x Hm Hok Ef) as (Hni & Hact & Hexp). rewrite Hni, Hact.
+    inv_bind H. inversion H; subst. exists []. split; [reflexivity|]. cbn [flat_map app].
+    pose proof (expand_atoms _ _ _ _ _ _ E) as He. rewrite Hexp in He. exact He.
+Qed.
+
+(* a wrapper combinator receiving its closure *)
+Lemma wrapper_step_atoms cfg defs cur w prev ds' s :
+  can_be_wrapper (p_comb w) = true ->
+  gen_def_and_step cfg defs cur (set_args w [RClosure n_v prev]) = Ok (ds', s) ->
+  ds' = defs /\ Permutation (atoms s) (atoms cur ++ atoms prev).
+Proof.
+  intros Hc H. unfold gen_def_and_step in H.
+  rewrite (separate_block_expr_spec _ (can_be_wrapper_pos_ok w _ Hc)) in H.
+  unfold set_args in H; cbn [p_comb p_args p_ops p_branch p_expr] in H.
+  assert (Hh : (if is_replaceable (p_comb w) && has_inner_exprs (p_comb w)
+                then hoist (p_branch w) (p_expr w) 0 [RClosure n_v prev] else ([], [RClosure n_v prev]))
+               = ([], [RClosure n_v prev])).
+  { destruct (is_replaceable (p_comb w) && has_inner_exprs (p_comb w)); reflexivity. }
+  rewrite Hh in H. inv_bind H. inversion H; subst. split; [apply app_nil_r|].
+  pose proof (expand_atoms _ _ _ _ _ _ E) as He.
+  eapply Permutation_trans; [exact He|].
+  destruct (p_comb w); cbn in Hc; try discriminate; cbn [expand_expected flat_map atoms]; rewrite app_nil_r; reflexivity.
+Qed.
+
+(* ---------------------------------------------------------------------------------------------- *)
+(** * The wrapper stack machine neither drops nor duplicates *)
+
+Definition stk_atoms (stk : list (rexpr * option pos)) : list uatom := flat_map (fun x => atoms (fst x)) stk.
+Definition acc_atoms (a : acc) : list uatom := A_ss (a_defs a) ++ stk_atoms (a_stk a).
+
+Lemma A_ss_app l l' : A_ss (l ++ l') = A_ss l ++ A_ss l'.
+Proof. apply flat_map_app. Qed.
+
+Lemma wrap_last_atoms cfg a a' d :
+  stk_inv (S d) a -> wrap_last cfg a = Ok a' ->
+  Permutation (acc_atoms a') (acc_atoms a) /\ stk_inv d a'.
+Proof.
+  intros Hi H. split.
+  - destruct Hi as ([prev w0] & rest & Hs & Hl & Hf). unfold wrap_last in H. rewrite Hs in H.
+    destruct rest as [|[cur ow] rest']; [discriminate|].
+    inversion Hf as [|? ? (w & Hw & Hc) Hf']; subst. cbn [snd] in Hw. subst ow.
+    rewrite (can_be_wrapper_replace _ _ Hc) in H. inv_bind H. destruct x as [ds' s]. inversion H; subst.
+    destruct (wrapper_step_atoms _ _ _ _ _ _ _ Hc E) as [-> Hp].
+    unfold acc_atoms. cbn [a_defs a_stk fst snd]. rewrite Hs. unfold stk_atoms. cbn [flat_map fst].
+    apply Permutation_app_head.
+    eapply Permutation_trans; [apply Permutation_app_tail, Hp|]. perm.
+  - destruct (wrap_last_total cfg a d Hi) as (a'' & E & Hi'). congruence.
+Qed.
+
+Definition next_depth (m : mv) (d : nat) : nat := match m with Wrap => S d | Unwrap => pred d | NoMove => d end.
+
+Lemma process_action_atoms cfg x b e a a' d :
+  stk_inv d a -> act_okb x = true ->
+  (a_mv x = Unwrap -> 0 < d) ->
+  (a_comb x = Initial -> exists prev w rest, a_stk a = (prev, w) :: rest /\ atoms prev = []) ->
+  process_action cfg (mk_pos x b e) (a_mv x) a = Ok a' ->
+  Permutation (acc_atoms a') (acc_atoms a ++ action_atoms b e x) /\ stk_inv (next_depth (a_mv x) d) a'.
+Proof.
+  intros Hi Hok Hu Hini H.
+  assert (Hinv : stk_inv (next_depth (a_mv x) d) a').
+  { pose proof Hok as Hok'. unfold act_okb, mv_okb in Hok'. apply andb_true_iff in Hok' as [_ Hm].
+    destruct (process_action_total cfg (mk_pos x b e) (a_mv x) a d Hi) as (a'' & E & Hi').
+    - destruct (a_mv x) eqn:Em; [exact Hm|apply Hu; reflexivity|apply act_ok_pos_ok; assumption].
+    - rewrite H in E. inversion E; subst a''. exact Hi'. }
+  split; [|exact Hinv].
+  unfold process_action in H. destruct (a_mv x) eqn:Em.
+  - (* Wrap *) assert (Hnil : action_atoms b e x = []) by (unfold action_atoms; rewrite Em; reflexivity).
+    rewrite Hnil, app_nil_r.
+    destruct (a_stk a) as [|[s w] rest] eqn:Es; [discriminate|]. inversion H; subst.
+    unfold acc_atoms, stk_atoms. cbn [a_defs a_stk flat_map fst atoms]. rewrite Es. cbn [flat_map fst app].
+    reflexivity.
+  - (* Unwrap *) assert (Hnil : action_atoms b e x = []) by (unfold action_atoms; rewrite Em; reflexivity).
+    rewrite Hnil, app_nil_r.
+    destruct d as [|d']; [specialize (Hu eq_refl); lia|].
+    eapply wrap_last_atoms; eauto.
+  - (* NoMove *) destruct (a_stk a) as [|[prev w] rest] eqn:Es; [discriminate|].
+    inv_bind H. destruct x0 as [ds' s]. inversion H; subst.
+    destruct (gen_def_and_step_atoms _ _ _ _ _ _ _ _ Hok Em E) as (ds & -> & Hp).
+    unfold acc_atoms, stk_atoms. cbn [a_defs a_stk fst snd flat_map]. rewrite Es. cbn [flat_map fst].
+    rewrite A_ss_app.
+    assert (Hprev : Permutation ((if comb_eqb (a_comb x) Initial then [] else atoms prev)) (atoms prev)).
+    { destruct (comb_eqb (a_comb x) Initial) eqn:Ec; [|reflexivity]. apply comb_eqb_iff in Ec.
+      destruct (Hini Ec) as (p' & w' & r' & Heq & Hnil). inversion Heq; subst. rewrite Hnil. constructor. }
+    pose proof (Permutation_trans Hp (Permutation_app_tail (action_atoms b e x) Hprev)) as Hp'.
+    set (R := flat_map (fun x0 : rexpr * option pos => atoms (fst x0)) rest).
+    apply Permutation_trans with (A_ss (a_defs a) ++ (A_ss ds ++ atoms s) ++ R); [perm|].
+    eapply Permutation_trans; [apply Permutation_app_head, Permutation_app_tail, Hp'|]. perm.
+Qed.
+
+Lemma process_actions_atoms cfg b acts : forall e d a a',
+  stk_inv d a -> Forall (fun x => act_okb x = true) acts -> balancedb d acts = true ->
+  Forall (fun x => a_comb x <> Initial) acts ->
+  process_actions cfg b e acts a = Ok a' ->
+  Permutation (acc_atoms a') (acc_atoms a ++ step_atoms b e acts) /\ exists d', stk_inv d' a'.
+Proof.
+  induction acts as [|x r IH]; intros e d a a' Hi Hok Hb Hni H; cbn [process_actions] in H.
+  - inversion H; subst. unfold step_atoms. cbn. rewrite app_nil_r. split; [reflexivity|eauto].
+  - inversion Hok as [|? ? Hx Hr]; subst. inversion Hni as [|? ? Hxi Hri]; subst. inv_bind H.
+    cbn [balancedb] in Hb.
+    destruct (process_action_atoms cfg x b e a x0 d Hi Hx) as [Hp Hinv]; auto.
+    { intros Hm. rewrite Hm in Hb. destruct d; [discriminate|lia]. }
+    { intros Hc. congruence. }
+    destruct (IH (S e) (next_depth (a_mv x) d) x0 a' Hinv Hr) as [Hp' Hd']; auto.
+    { unfold next_depth. destruct (a_mv x); auto. destruct d; [discriminate|exact Hb]. }
+    split; [|exact Hd'].
+    unfold step_atoms in *. cbn [enum_from flat_map fst snd].
+    eapply Permutation_trans; [exact Hp'|].
+    eapply Permutation_trans; [apply Permutation_app_tail, Hp|]. perm.
+Qed.
+
+Lemma close_all_atoms cfg : forall fuel a d ds s,
+  stk_inv d a -> close_all fuel cfg a = Ok (ds, s) -> Permutation (A_ss ds ++ atoms s) (acc_atoms a).
+Proof.
+  induction fuel as [|fuel IH]; intros a d ds s Hi H; cbn [close_all] in H;
+    pose proof Hi as ([s0 w0] & rest & Hs & Hl & Hf); rewrite Hs in H.
+  - destruct rest as [|y r]; [|discriminate]. inversion H; subst.
+    unfold acc_atoms, stk_atoms. rewrite Hs. cbn [flat_map fst]. rewrite app_nil_r. reflexivity.
+  - destruct rest as [|y r].
+    + inversion H; subst. unfold acc_atoms, stk_atoms. rewrite Hs. cbn [flat_map fst]. rewrite app_nil_r. reflexivity.
+    + inv_bind H. cbn [List.length] in Hl. destruct d as [|d']; [lia|].
+      destruct (wrap_last_atoms cfg a x d' Hi E) as [Hp Hi'].
+      eapply Permutation_trans; [eapply IH; eauto|exact Hp].
+Qed.
+
+(* one step of one branch: every operand of its members, tagged, exactly once *)
+Definition step_wf (acts : list action) : Prop :=
+  Forall (fun x => act_okb x = true) acts /\ balancedb 0 acts = true /\
+  Forall (fun x => a_comb x <> Initial) (tl acts).
+
+Lemma wrap_into_block_atoms j x : atoms (wrap_into_block j (RVar x)) = [].
+Proof. unfold wrap_into_block. destruct (is_async (j_cfg j)); reflexivity. Qed.
+
+Theorem gen_branch_step_atoms j b prev acts ds s :
+  step_wf acts -> gen_branch_step j b prev acts = Ok (ds, s) ->
+  Permutation (A_ss ds ++ atoms s) (step_atoms b 0 acts).
+Proof.
+  intros (Hok & Hb & Hni) H. unfold gen_branch_step in H. inv_bind H.
+  set (a0 := {| a_defs := []; a_stk := [(wrap_into_block j (RVar prev), None)] |}) in *.
+  assert (Hi0 : stk_inv 0 a0).
+  { eexists _, _. cbn [a_stk a0]. split; [reflexivity|]. split; [reflexivity|constructor]. }
+  assert (Ha0 : acc_atoms a0 = []).
+  { unfold acc_atoms, stk_atoms, a0. cbn [a_defs a_stk flat_map fst]. rewrite wrap_into_block_atoms. reflexivity. }
+  assert (Hx : Permutation (acc_atoms x) (step_atoms b 0 acts) /\ exists d', stk_inv d' x).
+  { destruct acts as [|x1 r]; cbn [process_actions] in E.
+    - inversion E; subst. rewrite Ha0. split; [reflexivity|eauto].
+    - inv_bind E. inversion Hok as [|? ? Hx1 Hr]; subst. cbn [tl] in Hni. cbn [balancedb] in Hb.
+      destruct (process_action_atoms (j_cfg j) x1 b 0 a0 x0 0 Hi0 Hx1) as [Hp Hinv]; auto.
+      { intros Hm. rewrite Hm in Hb. discriminate. }
+      { intros _. eexists _, _, _. split; [reflexivity|apply wrap_into_block_atoms]. }
+      destruct (process_actions_atoms (j_cfg j) b r 1 (next_depth (a_mv x1) 0) x0 x Hinv Hr) as [Hp' Hd']; auto.
+      { unfold next_depth. destruct (a_mv x1); auto. discriminate. }
+      split; [|exact Hd']. unfold step_atoms in *. cbn [enum_from flat_map fst snd].
+      eapply Permutation_trans; [exact Hp'|]. rewrite Ha0 in Hp. cbn [app] in Hp.
+      apply Permutation_app_tail. exact Hp. }
+  destruct Hx as [Hp (d' & Hi')].
+  eapply Permutation_trans; [eapply close_all_atoms; eauto|exact Hp].
+Qed.
+
+(* ---------------------------------------------------------------------------------------------- *)
+(** * Steps *)
+
+Lemma A_es_map_nil {A} (f : A -> rexpr) l : (forall x, atoms (f x) = []) -> A_es (map f l) = [].
+Proof. intros H. induction l as [|x r IH]; cbn [map flat_map]; [reflexivity|]. now rewrite H, IH. Qed.
+Lemma A_ss_map_nil {A} (f : A -> rstmt) l : (forall x, atoms_stmt (f x) = []) -> A_ss (map f l) = [].
+Proof. intros H. induction l as [|x r IH]; cbn [map flat_map]; [reflexivity|]. now rewrite H, IH. Qed.
+
+Lemma wrap_branch_atoms j k b c : atoms (wrap_branch j k b c) = atoms c.
+Proof.
+  unfold wrap_branch. destruct (Nat.ltb 1 (active_count j k)); [|reflexivity].
+  destruct (j_lazy j), (is_spawn (j_cfg j)), (is_async (j_cfg j)); asimp; rewrite ?app_nil_r; reflexivity.
+Qed.
+
+Lemma nth_error_nth' {A} (l : list A) k d x : nth_error l k = Some x -> nth k l d = x.
+Proof. revert k. induction l as [|y r IH]; intros [|k] H; cbn in *; try discriminate; [now inversion H|auto]. Qed.
+Lemma nth_error_none_nth {A} (l : list A) k d : nth_error l k = None -> nth k l d = d.
+Proof. revert k. induction l as [|y r IH]; intros [|k] H; cbn in *; try discriminate; auto. Qed.
+
+Definition chains_wf (chs : list (list (list action))) : Prop := Forall (fun ch => Forall step_wf ch) chs.
+
+(* what the branches contribute to step k (branch indices from b) *)
+Definition branches_step_atoms (k b : nat) (chs : list (list (list action))) : list uatom :=
+  flat_map (fun ic => step_atoms (fst ic) 0 (nth k (snd ic) [])) (enum_from b chs).
+
+Lemma gen_branches_atoms j k vars chs : forall b defs cs,
+  chains_wf chs -> gen_branches j k vars b chs = Ok (defs, cs) ->
+  Permutation (A_ss defs ++ A_es cs) (branches_step_atoms k b chs).
+Proof.
+  induction chs as [|ch rest IH]; intros b defs cs Hwf H; cbn [gen_branches] in H.
+  - inversion H; subst. constructor.
+  - inversion Hwf as [|? ? Hch Hrest]; subst. inv_bind H. destruct x as [d0 c0].
+    specialize (IH _ _ _ Hrest E). unfold branches_step_atoms in *. cbn [enum_from flat_map fst snd].
+    destruct (nth_error ch k) as [[|a acts]|] eqn:En.
+    + inversion H; subst. rewrite (nth_error_nth' _ _ _ _ En). exact IH.
+    + inv_bind H. destruct x as [ds s]. inversion H; subst. cbn [fst snd flat_map].
+      rewrite (nth_error_nth' _ _ _ _ En). rewrite A_ss_app, wrap_branch_atoms.
+      assert (Hs : step_wf (a :: acts)).
+      { rewrite Forall_forall in Hch. apply Hch. eapply nth_error_In; eauto. }
+      pose proof (gen_branch_step_atoms _ _ _ _ _ _ Hs E0) as Hp.
+      apply Permutation_trans with ((A_ss ds ++ atoms s) ++ (A_ss d0 ++ A_es c0)); [perm|].
+      apply Permutation_app; assumption.
+    + inversion H; subst. rewrite (nth_error_none_nth _ _ _ En). exact IH.
+Qed.
+
+Definition joiner_atoms_at (j : jout) (k : nat) : list uatom :=
+  if Nat.ltb 1 (active_count j k)
+  then match j_joiner j with Some jt => [UExpr jt] | None => [] end
+  else [].
+
+Lemma indexed_sr_atoms j sr k i : atoms (indexed_sr j sr k i) = [].
+Proof. unfold indexed_sr. destruct (Nat.ltb 1 (active_count j k)); reflexivity. Qed.
+
+Lemma thread_builders_atoms j k sr tbs sjs :
+  thread_builders j k sr = (tbs, sjs) -> A_ss tbs = [] /\ A_ss sjs = [].
+Proof.
+  unfold thread_builders.
+  destruct (is_async (j_cfg j) || negb (is_spawn (j_cfg j)) || Nat.ltb (active_count j k) 2);
+    intros H; inversion H; subst; [split; reflexivity|]. split.
+  - apply A_ss_map_nil. reflexivity.
+  - cbn [flat_map]. rewrite app_nil_r. rewrite a_SLet by exact I. rewrite a_RTuple.
+    apply A_es_map_nil. intros ib. asimp. rewrite indexed_sr_atoms. reflexivity.
+Qed.
+
+Lemma gen_step_atoms j k vars sr stmts :
+  chains_wf (j_chains j) -> gen_step j k vars sr = Ok stmts ->
+  Permutation (A_ss stmts) (joiner_atoms_at j k ++ branches_step_atoms k 0 (j_chains j)).
+Proof.
+  intros Hwf H. unfold gen_step in H. inv_bind H. destruct x as [defs chains].
+  pose proof (gen_branches_atoms _ _ _ _ _ _ _ Hwf E) as Hp. unfold joiner_atoms_at.
+  destruct (is_async (j_cfg j)) eqn:Ea.
+  - inversion H; subst. rewrite A_ss_app. cbn [flat_map]. rewrite app_nil_r.
+    destruct (Nat.ltb 1 (active_count j k)).
+    + destruct (j_joiner j) as [jt|]; rewrite a_SLet by exact I; asimp.
+      * eapply Permutation_trans; [|apply (Permutation_app_head [UExpr jt]), Hp]. perm.
+      * exact Hp.
+    + rewrite a_SLet by exact I. cbn [atoms app].
+      destruct chains as [|c [|c' l]]; rewrite ?a_RJuxt; cbn [flat_map] in *; rewrite ?app_nil_r in *; exact Hp.
+  - destruct (thread_builders j k sr) as [tbs sjs] eqn:Et.
+    destruct (thread_builders_atoms _ _ _ _ _ Et) as [H1 H2].
+    inversion H; subst. rewrite !A_ss_app. cbn [flat_map]. rewrite H1, H2. cbn [app]. rewrite ?app_nil_r.
+    destruct (Nat.ltb 1 (active_count j k)); [destruct (j_joiner j) as [jt|]|]; rewrite a_SLet by exact I; asimp.
+    + eapply Permutation_trans; [|apply (Permutation_app_head [UExpr jt]), Hp]. perm.
+    + exact Hp.
+    + exact Hp.
+Qed.
+
+(* ---- join_steps: the glue between steps contains no user tokens ---- *)
+Lemma is_succ_atoms x : atoms (is_succ x) = [].
+Proof. reflexivity. Qed.
+Lemma tuple_of_atoms vars : atoms (tuple_of vars) = [].
+Proof. unfold tuple_of. rewrite a_RTuple. apply A_es_map_nil. reflexivity. Qed.
+Lemma extract_step_atoms j sr pats k : atoms_stmt (extract_step j sr pats k) = [].
+Proof. unfold extract_step. rewrite a_SLet_tuple. reflexivity. Qed.
+Lemma transposer_atoms vars ret : forall t, transposer vars ret = Some t -> atoms t = atoms ret.
+Proof.
+  induction vars as [|x r IH]; intros t H; cbn [transposer] in H; [discriminate|].
+  destruct r as [|y r'].
+  - inversion H; subst. asimp. now rewrite app_nil_r.
+  - destruct (transposer (y :: r') ret) as [acc|] eqn:E; [|discriminate]. inversion H; subst.
+    asimp. rewrite app_nil_r. apply IH. reflexivity.
+Qed.
+
+Definition next_atoms (next : option body) : list uatom :=
+  match next with Some (nss, ne) => A_ss nss ++ atoms ne | None => [] end.
+
+Lemma join_steps_atoms j k step next pats vars sr ss e :
+  (is_try (j_cfg j) = true -> Nat.ltb k (j_max j - 1) = false -> next = None) ->
+  join_steps j k step next pats vars sr = Ok (ss, e) ->
+  Permutation (A_ss ss ++ atoms e) (A_ss step ++ next_atoms next).
+Proof.
+  intros Hn. unfold join_steps, next_atoms.
+  pose proof (extract_step_atoms j sr pats k) as Hx.
+  destruct (is_try (j_cfg j)) eqn:Et; cbn [andb].
+  - destruct (Nat.ltb k (j_max j - 1)) eqn:Ek.
+    + destruct next as [[nss ne]|]; [|destruct (j_transpose j); discriminate].
+      destruct (j_transpose j).
+      * intros H; inversion H; subst. rewrite A_ss_app. cbn [flat_map]. rewrite Hx. asimp.
+        rewrite A_es_map_nil by (intros; apply is_succ_atoms).
+        rewrite (flat_map_nil (fun ix : nat * rexpr => atoms (snd ix))).
+        2:{ intros ix Hix. apply in_map_iff in Hix as (nv & <- & _). reflexivity. }
+        perm.
+      * intros H; inversion H; subst. asimp. rewrite A_ss_app.
+        assert (Hc : A_ss (if is_async (j_cfg j)
+                           then [SLet (PIdent sr) (RTuple (map (fun ib => ROk (indexed_sr j sr k (fst ib)))
+                                                               (enum_from 0 (active_branches j k))));
+                                 extract_step j sr pats k]
+                           else [extract_step j sr pats k]) = []).
+        { destruct (is_async (j_cfg j)); cbn [flat_map]; rewrite Hx; [|reflexivity].
+          rewrite a_SLet by exact I. rewrite a_RTuple. rewrite A_es_map_nil; [reflexivity|].
+          intros ib. cbn [atoms]. apply indexed_sr_atoms. }
+        rewrite Hc. perm.
+    + rewrite (Hn eq_refl eq_refl). rewrite app_nil_r.
+      destruct (j_transpose j); cbn [andb].
+      * destruct (transposer vars (tuple_of vars)) as [t|] eqn:E; [|discriminate].
+        intros H; inversion H; subst. rewrite A_ss_app. cbn [flat_map]. rewrite Hx.
+        rewrite (transposer_atoms _ _ _ E), tuple_of_atoms. perm.
+      * destruct (Nat.ltb 1 (j_branch_count j)).
+        -- destruct (map snd (filter (fun iv => negb (is_active j k (fst iv))) (enum_from 0 vars))) as [|r0 rs].
+           ++ intros H; inversion H; subst. asimp. rewrite Hx, tuple_of_atoms. perm.
+           ++ destruct (transposer (r0 :: rs) (tuple_of vars)) as [t|] eqn:E; [|discriminate].
+              intros H; inversion H; subst. asimp. rewrite Hx, (transposer_atoms _ _ _ E), tuple_of_atoms. perm.
+        -- intros H; inversion H; subst. asimp. perm.
+  - rewrite andb_false_r. destruct next as [[nss ne]|]; intros H; inversion H; subst.
+    + rewrite !A_ss_app. cbn [flat_map]. rewrite Hx. perm.
+    + rewrite A_ss_app. cbn [flat_map]. rewrite Hx, tuple_of_atoms. perm.
+Qed.
+
+Definition step_total_atoms (j : jout) (k : nat) : list uatom :=
+  joiner_atoms_at j k ++ branches_step_atoms k 0 (j_chains j).
+
+Lemma gen_steps_atoms j pats vars : forall n k r,
+  chains_wf (j_chains j) -> k + n = j_max j ->
+  gen_steps j pats vars k n = Ok r ->
+  Permutation (next_atoms r) (flat_map (step_total_atoms j) (seq k n)) /\ (0 < n -> r <> None).
+Proof.
+  induction n as [|n IH]; intros k r Hwf Hk H; cbn [gen_steps] in H.
+  - inversion H; subst. split; [constructor|lia].
+  - inv_bind H. inv_bind H. inv_bind H. inversion H; subst. destruct x1 as [ss e].
+    destruct (IH (S k) x Hwf) as [Hp Hne]; [lia|exact E|].
+    split; [|discriminate]. cbn [next_atoms seq flat_map].
+    pose proof (gen_step_atoms _ _ _ _ _ Hwf E0) as Hs.
+    eapply Permutation_trans; [eapply join_steps_atoms; [|exact E1]|].
+    + intros _ Hlt. apply Nat.ltb_ge in Hlt. destruct n as [|n'].
+      * cbn [gen_steps] in E. now inversion E.
+      * lia.
+    + apply Permutation_app; assumption.
+Qed.
+
+Definition handler_atoms (h : option (hkind * operand)) : list uatom :=
+  match h with Some (_, o) => [UBound n_h o] | None => [] end.
+
+Lemma gen_handle_atoms j : atoms (gen_handle j) = [].
+Proof.
+  unfold gen_handle.
+  assert (Hcall : atoms (RBlock [SLet (PTuple (map PIdent (map n_r (seq 0 (j_branch_count j))))) (RVar n_rs)]
+                                (RCall (RVar n_h) (map RVar (map n_r (seq 0 (j_branch_count j)))))) = []).
+  { asimp. apply A_es_map_nil. reflexivity. }
+  assert (Hw : atoms (wrap_into_block j (RVar n_rs)) = []) by apply wrap_into_block_atoms.
+  assert (Hvars : A_es (map RVar (map n_r (seq 0 (j_branch_count j)))) = []) by (apply A_es_map_nil; reflexivity).
+  destruct (j_handler j) as [[[| |] h]|]; destruct (is_async (j_cfg j)); asimp; rewrite ?Hw; asimp;
+    rewrite ?Hvars; reflexivity.
+Qed.
+
+Theorem gen_output_atoms j e :
+  chains_wf (j_chains j) -> gen_output j = Ok e ->
+  Permutation (atoms e) (handler_atoms (j_handler j) ++ flat_map (step_total_atoms j) (seq 0 (j_max j))).
+Proof.
+  intros Hwf H. unfold gen_output in H. inv_bind H.
+  destruct (gen_steps_atoms _ _ _ _ _ _ Hwf (Nat.add_0_l _) E) as [Hp _].
+  destruct x as [[sss se]|]; [|discriminate]. cbn [next_atoms] in Hp.
+  assert (Htail : Permutation
+            (A_ss (match j_handler j with Some (_, h) => [SLet (PIdent n_h) (RUser h)] | None => [] end
+                   ++ [SLet (PIdent n_rs) (RBlock sss se)]))
+            (handler_atoms (j_handler j) ++ flat_map (step_total_atoms j) (seq 0 (j_max j)))).
+  { rewrite A_ss_app. cbn [flat_map]. rewrite a_SLet by exact I. rewrite a_RBlock, app_nil_r.
+    apply Permutation_app; [|exact Hp]. destruct (j_handler j) as [[hk h]|]; reflexivity. }
+  destruct (is_async (j_cfg j)); inversion H; subst; asimp; rewrite gen_handle_atoms, app_nil_r.
+  - destruct (is_spawn (j_cfg j)); cbn [app flat_map atoms_stmt]; exact Htail.
+  - destruct (is_spawn (j_cfg j)); cbn [app flat_map atoms_stmt]; exact Htail.
+Qed.
+
+(* ---------------------------------------------------------------------------------------------- *)
+(** * From "per step, per branch" to "per branch, per step" *)
+
+Lemma flat_map_map' {A B C} (f : B -> list C) (g : A -> B) l : flat_map f (map g l) = flat_map (fun x => f (g x)) l.
+Proof. induction l as [|x r IH]; cbn [map flat_map]; [reflexivity|]. now rewrite IH. Qed.
+
+Lemma flat_map_swap {A B C} (F : A -> B -> list C) ks l :
+  Permutation (flat_map (fun k => flat_map (fun x => F k x) l) ks)
+              (flat_map (fun x => flat_map (fun k => F k x) ks) l).
+Proof.
+  induction l as [|x r IH]; cbn [flat_map].
+  - rewrite flat_map_nil; [constructor|reflexivity].
+  - eapply Permutation_trans; [apply flat_map_app_perm|]. apply Permutation_app_head, IH.
+Qed.
+
+Lemma nth_nil {A} k (d : A) : nth k [] d = d.
+Proof. destruct k; reflexivity. Qed.
+
+Lemma flat_map_steps {B} (f : list action -> list B) (ch : list (list action)) : forall m,
+  f [] = [] -> List.length ch <= m ->
+  flat_map (fun k => f (nth k ch [])) (seq 0 m) = flat_map f ch.
+Proof.
+  induction ch as [|s r IH]; intros m Hf Hm.
+  - cbn [flat_map]. apply flat_map_nil. intros k _. now rewrite nth_nil.
+  - destruct m as [|m']; [cbn in Hm; lia|]. cbn [seq flat_map nth]. f_equal.
+    rewrite <- seq_shift, flat_map_map'. cbn [nth]. apply IH; [exact Hf|cbn in Hm; lia].
+Qed.
+
+Lemma joiner_total j : forall ks,
+  flat_map (joiner_atoms_at j) ks =
+  match j_joiner j with
+  | Some jt => repeat (UExpr jt) (List.length (filter (fun k => Nat.ltb 1 (active_count j k)) ks))
+  | None => []
+  end.
+Proof.
+  induction ks as [|k r IH]; cbn [flat_map filter].
+  - destruct (j_joiner j); reflexivity.
+  - rewrite IH. unfold joiner_atoms_at. destruct (Nat.ltb 1 (active_count j k)); destruct (j_joiner j); reflexivity.
+Qed.
+
+(* ---------------------------------------------------------------------------------------------- *)
+(** * The theorem *)
+
+Definition depths (inp : input) : list nat :=
+  map (fun c : list (list action) => List.length c) (map (fun b => split_steps (b_members b)) (i_branches inp)).
+(* step k is a multi-branch step: more than one branch is still active *)
+Definition multi_step (inp : input) (k : nat) : bool :=
+  Nat.ltb 1 (List.length (filter (fun d => Nat.ltb k d) (depths inp))).
+Definition multi_steps (inp : input) : nat :=
+  List.length (filter (multi_step inp) (seq 0 (list_max (depths inp)))).
+
+Definition branch_atoms (bi : nat) (b : branch) : list uatom :=
+  flat_map (step_atoms bi 0) (split_steps (b_members b)).
+
+Definition input_atoms (inp : input) : list uatom :=
+  handler_atoms (i_handler inp) ++
+  match i_joiner inp with Some jt => repeat (UExpr jt) (multi_steps inp) | None => [] end ++
+  flat_map (fun ib => branch_atoms (fst ib) (snd ib)) (enum_from 0 (i_branches inp)).
+
+Lemma wf_chains_wf cfg inp : wf_parsed inp -> chains_wf (j_chains (the_jout cfg inp)).
+Proof.
+  intros Hwf. unfold chains_wf. cbn [the_jout j_chains]. apply Forall_forall. intros ch Hch.
+  apply in_map_iff in Hch as (b & <- & Hb). unfold wf_parsed in Hwf. rewrite Forall_forall in Hwf.
+  destruct (Hwf b Hb) as (m0 & rest & Heq & _ & Hd & _ & Hni & Hok & Hnest).
+  apply Forall_forall. intros s Hs. split; [|split].
+  - apply Forall_forall. intros x Hx. apply act_okb_iff.
+    rewrite Forall_forall in Hok. apply Hok. eapply split_steps_members; eauto.
+  - apply nest_some_iff_balanced. rewrite Forall_forall in Hnest. auto.
+  - rewrite Heq in Hs. cbn [split_steps] in Hs. rewrite Hd in Hs.
+    rewrite Forall_forall in Hni. apply Forall_forall. intros x Hx. apply Hni.
+    destruct (split_steps rest) as [|g gs] eqn:Er; [exfalso; exact (split_steps_nonempty rest Er)|].
+    destruct Hs as [<-|Hs].
+    + cbn [tl] in Hx. apply (split_steps_members rest g x); [rewrite Er; now left|exact Hx].
+    + apply (split_steps_members rest s x); [rewrite Er; now right|].
+      destruct s; [destruct Hx|now right].
+Qed.
+
+Lemma steps_rearranged (chs : list (list (list action))) m b0 :
+  (forall ch, In ch chs -> List.length ch <= m) ->
+  Permutation (flat_map (fun k => branches_step_atoms k b0 chs) (seq 0 m))
+              (flat_map (fun ic => flat_map (step_atoms (fst ic) 0) (snd ic)) (enum_from b0 chs)).
+Proof.
+  intros Hm. unfold branches_step_atoms.
+  eapply Permutation_trans; [apply (flat_map_swap (fun k ic => step_atoms (fst ic) 0 (nth k (snd ic) [])))|].
+  apply flat_map_perm_ext. intros [bi ch] Hin. cbn [fst snd].
+  rewrite (flat_map_steps (step_atoms bi 0)); [reflexivity|reflexivity|].
+  apply Hm. clear Hm. revert b0 Hin. induction chs as [|c r IH]; intros b0 Hin; [destruct Hin|].
+  cbn [enum_from] in Hin. destruct Hin as [Heq|Hin]; [inversion Heq; now left|right; eapply IH; eauto].
+Qed.
+
+Theorem atoms_exact cfg inp e :
+  wf_parsed inp -> gen cfg inp = Ok e -> Permutation (atoms e) (input_atoms inp).
+Proof.
+  intros Hwf H. apply gen_ok_unfold in H as [_ H].
+  pose proof (gen_output_atoms _ _ (wf_chains_wf cfg inp Hwf) H) as Hp.
+  eapply Permutation_trans; [exact Hp|]. unfold input_atoms. cbn [the_jout j_handler].
+  apply Permutation_app_head. unfold step_total_atoms.
+  eapply Permutation_trans; [apply flat_map_app_perm|]. apply Permutation_app.
+  - rewrite joiner_total. cbn [the_jout j_joiner j_max]. reflexivity.
+  - cbn [the_jout j_chains j_max].
+    eapply Permutation_trans; [apply steps_rearranged|].
+    + intros ch Hch. apply list_max_ge. apply (in_map (fun c : list (list action) => List.length c)). exact Hch.
+    + rewrite enum_from_map, flat_map_map'. reflexivity.
+Qed.
+
+Print Assumptions atoms_exact.
+
+(* ---------------------------------------------------------------------------------------------- *)
+(** * Projections: the plain multisets of expression / type / member operands *)
+
+(* the `RUser` leaves of a term, by a plain traversal *)
+Fixpoint leaves (e : rexpr) : list operand :=
+  let es := fix go (l : list rexpr) : list operand :=
+              match l with [] => [] | x :: r => leaves x ++ go r end in
+  let ss := fix go (l : list rstmt) : list operand :=
+              match l with [] => [] | s :: r => leaves_stmt s ++ go r end in
+  match e with
+  | RUser o => [o]
+  | RVar _ | RUsize _ | RBool _ | RUnreachable | RJoinMac _ _ => []
+  | RBlock s e | RAsyncMove s e => ss s ++ leaves e
+  | RAwait e | RBoxPin e | RField e _ | RClosure _ e | RClosureIgn e | RMoveThunk e
+  | RNot e | RRef e | ROk e => leaves e
+  | RTuple l | RArray l | RJuxt l => es l
+  | RMeth r _ _ args | RGlue r _ args => leaves r ++ es args
+  | RDot r _ => leaves r
+  | RCall f args => leaves f ++ es args
+  | RThenCall o arg => leaves o ++ leaves arg
+  | RIfLetSome _ s t e => leaves s ++ leaves t ++ leaves e
+  | RMatchIdx s arms =>
+      leaves s ++ (fix go (l : list (nat * rexpr)) : list operand :=
+                     match l with [] => [] | ix :: r => leaves (snd ix) ++ go r end) arms
+  | RMatchOk s _ a => leaves s ++ leaves a
+  end
+with leaves_stmt (s : rstmt) : list operand :=
+  match s with
+  | SLet _ e | SExpr e => leaves e
+  | SFn _ _ _ body => leaves body
+  | STbFn | SSpawnTokioFn _ | SUseFutures _ => []
+  end.
+
+(* the type operands (turbofish fields of the user's methods) and the member-access operands *)
+Fixpoint tyfields (e : rexpr) : list operand :=
+  let es := fix go (l : list rexpr) : list operand :=
+              match l with [] => [] | x :: r => tyfields x ++ go r end in
+  let ss := fix go (l : list rstmt) : list operand :=
+              match l with [] => [] | s :: r => tyfields_stmt s ++ go r end in
+  match e with
+  | RUser _ | RVar _ | RUsize _ | RBool _ | RUnreachable | RJoinMac _ _ => []
+  | RBlock s e | RAsyncMove s e => ss s ++ tyfields e
+  | RAwait e | RBoxPin e | RField e _ | RClosure _ e | RClosureIgn e | RMoveThunk e
+  | RNot e | RRef e | ROk e => tyfields e
+  | RTuple l | RArray l | RJuxt l => es l
+  | RMeth r _ tf args => tyfields r ++ match tf with Some tys => tys | None => [] end ++ es args
+  | RGlue r _ args => tyfields r ++ es args
+  | RDot r _ => tyfields r
+  | RCall f args => tyfields f ++ es args
+  | RThenCall o arg => tyfields o ++ tyfields arg
+  | RIfLetSome _ s t e => tyfields s ++ tyfields t ++ tyfields e
+  | RMatchIdx s arms =>
+      tyfields s ++ (fix go (l : list (nat * rexpr)) : list operand :=
+                       match l with [] => [] | ix :: r => tyfields (snd ix) ++ go r end) arms
+  | RMatchOk s _ a => tyfields s ++ tyfields a
+  end
+with tyfields_stmt (s : rstmt) : list operand :=
+  match s with
+  | SLet _ e | SExpr e => tyfields e
+  | SFn _ _ _ body => tyfields body
+  | STbFn | SSpawnTokioFn _ | SUseFutures _ => []
+  end.
+
+Fixpoint dotfields (e : rexpr) : list operand :=
+  let es := fix go (l : list rexpr) : list operand :=
+              match l with [] => [] | x :: r => dotfields x ++ go r end in
+  let ss := fix go (l : list rstmt) : list operand :=
+              match l with [] => [] | s :: r => dotfields_stmt s ++ go r end in
+  match e with
+  | RUser _ | RVar _ | RUsize _ | RBool _ | RUnreachable | RJoinMac _ _ => []
+  | RBlock s e | RAsyncMove s e => ss s ++ dotfields e
+  | RAwait e | RBoxPin e | RField e _ | RClosure _ e | RClosureIgn e | RMoveThunk e
+  | RNot e | RRef e | ROk e => dotfields e
+  | RTuple l | RArray l | RJuxt l => es l
+  | RMeth r _ _ args | RGlue r _ args => dotfields r ++ es args
+  | RDot r o => dotfields r ++ [o]
+  | RCall f args => dotfields f ++ es args
+  | RThenCall o arg => dotfields o ++ dotfields arg
+  | RIfLetSome _ s t e => dotfields s ++ dotfields t ++ dotfields e
+  | RMatchIdx s arms =>
+      dotfields s ++ (fix go (l : list (nat * rexpr)) : list operand :=
+                        match l with [] => [] | ix :: r => dotfields (snd ix) ++ go r end) arms
+  | RMatchOk s _ a => dotfields s ++ dotfields a
+  end
+with dotfields_stmt (s : rstmt) : list operand :=
+  match s with
+  | SLet _ e | SExpr e => dotfields e
+  | SFn _ _ _ body => dotfields body
+  | STbFn | SSpawnTokioFn _ | SUseFutures _ => []
+  end.
+
+Definition expr_of (a : uatom) : list operand := match a with UExpr o | UBound _ o => [o] | _ => [] end.
+Definition type_of (a : uatom) : list operand := match a with UType o => [o] | _ => [] end.
+Definition dot_of (a : uatom) : list operand := match a with UDot o => [o] | _ => [] end.
+
+
+Lemma SLet_expr_of p e : flat_map expr_of (atoms_stmt (SLet p e)) = flat_map expr_of (atoms e).
+Proof. destruct p, e; reflexivity. Qed.
+Lemma SLet_type_of p e : flat_map type_of (atoms_stmt (SLet p e)) = flat_map type_of (atoms e).
+Proof. destruct p, e; reflexivity. Qed.
+Lemma SLet_dot_of p e : flat_map dot_of (atoms_stmt (SLet p e)) = flat_map dot_of (atoms e).
+Proof. destruct p, e; reflexivity. Qed.
+
+Lemma type_of_map_UType tys : flat_map type_of (map UType tys) = tys.
+Proof. induction tys as [|t r IH]; cbn; [reflexivity|]. now rewrite IH. Qed.
+Lemma expr_of_map_UType tys : flat_map expr_of (map UType tys) = [].
+Proof. induction tys as [|t r IH]; cbn; [reflexivity|]. exact IH. Qed.
+Lemma dot_of_map_UType tys : flat_map dot_of (map UType tys) = [].
+Proof. induction tys as [|t r IH]; cbn; [reflexivity|]. exact IH. Qed.
+
+Ltac proj_list Hrec l :=
+  let x := fresh "x" in let r := fresh "r" in let IH := fresh "IH" in
+  induction l as [|x r IH]; cbn [flat_map]; [reflexivity|];
+  rewrite ?flat_map_app; rewrite IH; rewrite (Hrec x); reflexivity.
+
+(* the plain traversals are the projections of the census *)
+Fixpoint leaves_atoms (e : rexpr) : leaves e = flat_map expr_of (atoms e)
+with leaves_atoms_stmt (s : rstmt) : leaves_stmt s = flat_map expr_of (atoms_stmt s).
+Proof.
+  - assert (Hes : forall l, (fix go (l : list rexpr) : list operand :=
+                               match l with [] => [] | x :: r => leaves x ++ go r end) l
+                            = flat_map expr_of (A_es l)).
+    { intros l. induction l as [|x r IH]; cbn [flat_map]; [reflexivity|].
+      rewrite flat_map_app, IH, (leaves_atoms x). reflexivity. }
+    assert (Hss : forall l, (fix go (l : list rstmt) : list operand :=
+                               match l with [] => [] | s :: r => leaves_stmt s ++ go r end) l
+                            = flat_map expr_of (A_ss l)).
+    { intros l. induction l as [|x r IH]; cbn [flat_map]; [reflexivity|].
+      rewrite flat_map_app, IH, (leaves_atoms_stmt x). reflexivity. }
+    destruct e; cbn [leaves]; rewrite ?Hes, ?Hss;
+      rewrite ?a_RBlock, ?a_RAsyncMove, ?a_RTuple, ?a_RArray, ?a_RJuxt, ?a_RMeth, ?a_RGlue, ?a_RCall;
+      cbn [atoms]; rewrite ?flat_map_app; rewrite ?expr_of_map_UType; cbn [flat_map expr_of app];
+      repeat match goal with |- context [leaves ?x] => rewrite (leaves_atoms x) end; try reflexivity.
+    + destruct tf; rewrite ?expr_of_map_UType; reflexivity.
+    + rewrite app_nil_r. reflexivity.
+    + rewrite at_arms. f_equal.
+      induction arms as [|ix r IH]; cbn [flat_map]; [reflexivity|].
+      rewrite flat_map_app, IH, (leaves_atoms (snd ix)). reflexivity.
+  - destruct s; cbn [leaves_stmt]; rewrite ?SLet_expr_of; cbn [atoms_stmt]; try apply leaves_atoms; reflexivity.
+Qed.
+
+Lemma type_of_map_UDot l : flat_map type_of (map UDot l) = [].
+Proof. induction l as [|t r IH]; cbn; [reflexivity|]. exact IH. Qed.
+Lemma dot_of_map_UDot l : flat_map dot_of (map UDot l) = l.
+Proof. induction l as [|t r IH]; cbn; [reflexivity|]. now rewrite IH. Qed.
+Lemma expr_of_map_UDot l : flat_map expr_of (map UDot l) = [].
+Proof. induction l as [|t r IH]; cbn; [reflexivity|]. exact IH. Qed.
+
+Fixpoint tyfields_atoms (e : rexpr) : tyfields e = flat_map type_of (atoms e)
+with tyfields_atoms_stmt (s : rstmt) : tyfields_stmt s = flat_map type_of (atoms_stmt s).
+Proof.
+  - assert (Hes : forall l, (fix go (l : list rexpr) : list operand :=
+                               match l with [] => [] | x :: r => tyfields x ++ go r end) l
+                            = flat_map type_of (A_es l)).
+    { intros l. induction l as [|x r IH]; cbn [flat_map]; [reflexivity|].
+      rewrite flat_map_app, IH, (tyfields_atoms x). reflexivity. }
+    assert (Hss : forall l, (fix go (l : list rstmt) : list operand :=
+                               match l with [] => [] | s :: r => tyfields_stmt s ++ go r end) l
+                            = flat_map type_of (A_ss l)).
+    { intros l. induction l as [|x r IH]; cbn [flat_map]; [reflexivity|].
+      rewrite flat_map_app, IH, (tyfields_atoms_stmt x). reflexivity. }
+    destruct e; cbn [tyfields]; rewrite ?Hes, ?Hss;
+      rewrite ?a_RBlock, ?a_RAsyncMove, ?a_RTuple, ?a_RArray, ?a_RJuxt, ?a_RMeth, ?a_RGlue, ?a_RCall;
+      cbn [atoms]; rewrite ?flat_map_app; cbn [flat_map type_of app];
+      repeat match goal with |- context [tyfields ?x] => rewrite (tyfields_atoms x) end; try reflexivity.
+    + destruct tf; rewrite ?type_of_map_UType; reflexivity.
+    + rewrite app_nil_r. reflexivity.
+    + rewrite at_arms. f_equal.
+      induction arms as [|ix r IH]; cbn [flat_map]; [reflexivity|].
+      rewrite flat_map_app, IH, (tyfields_atoms (snd ix)). reflexivity.
+  - destruct s; cbn [tyfields_stmt]; rewrite ?SLet_type_of; cbn [atoms_stmt]; try apply tyfields_atoms; reflexivity.
+Qed.
+
+Fixpoint dotfields_atoms (e : rexpr) : dotfields e = flat_map dot_of (atoms e)
+with dotfields_atoms_stmt (s : rstmt) : dotfields_stmt s = flat_map dot_of (atoms_stmt s).
+Proof.
+  - assert (Hes : forall l, (fix go (l : list rexpr) : list operand :=
+                               match l with [] => [] | x :: r => dotfields x ++ go r end) l
+                            = flat_map dot_of (A_es l)).
+    { intros l. induction l as [|x r IH]; cbn [flat_map]; [reflexivity|].
+      rewrite flat_map_app, IH, (dotfields_atoms x). reflexivity. }
+    assert (Hss : forall l, (fix go (l : list rstmt) : list operand :=
+                               match l with [] => [] | s :: r => dotfields_stmt s ++ go r end) l
+                            = flat_map dot_of (A_ss l)).
+    { intros l. induction l as [|x r IH]; cbn [flat_map]; [reflexivity|].
+      rewrite flat_map_app, IH, (dotfields_atoms_stmt x). reflexivity. }
+    destruct e; cbn [dotfields]; rewrite ?Hes, ?Hss;
+      rewrite ?a_RBlock, ?a_RAsyncMove, ?a_RTuple, ?a_RArray, ?a_RJuxt, ?a_RMeth, ?a_RGlue, ?a_RCall;
+      cbn [atoms]; rewrite ?flat_map_app; rewrite ?dot_of_map_UType; cbn [flat_map dot_of app];
+      repeat match goal with |- context [dotfields ?x] => rewrite (dotfields_atoms x) end; try reflexivity.
+    + destruct tf; rewrite ?dot_of_map_UType; reflexivity.
+    + rewrite at_arms. f_equal.
+      induction arms as [|ix r IH]; cbn [flat_map]; [reflexivity|].
+      rewrite flat_map_app, IH, (dotfields_atoms (snd ix)). reflexivity.
+  - destruct s; cbn [dotfields_stmt]; rewrite ?SLet_dot_of; cbn [atoms_stmt]; try apply dotfields_atoms; reflexivity.
 Qed.
